@@ -296,7 +296,7 @@ T_After(p) ==
   /\ UNCHANGED H
 T_Loop(p) ==
   /\ S.pc[p] = "i.tune.loop"
-  /\ IF S.loc[p].shrink > 0 /\ Len(S.idle) # MinIdle /\ S.idle # <<>>
+  /\ IF S.loc[p].shrink > 0 /\ Len(S.idle) > MinIdle /\ S.idle # <<>>
        THEN S' = [S EXCEPT !.idle = Front(@), !.loc[p].node = Last(S.idle), !.loc[p].shrink = @ - 1, !.pc[p] = "tune.popped"]
        ELSE S' = Fin(S, p)
   /\ UNCHANGED H
